@@ -2,7 +2,7 @@
    This file contains only statements, each closed by `exact` of a lemma proved elsewhere. *)
 From Coq Require Import List Arith Bool.
 Import ListNotations.
-Require Import Sem2 Safe Race Live LiveInv Kahn Pool Threads Sched2 Assembly.
+Require Import Sem2 Safe Race Live LiveInv Kahn Pool Threads Sched2 Assembly GenU GenSound.
 
 (* Layer A: for every well-synchronised thread program p, every label sequence ls (any interleaving, any provider
    latency, failures and cancellation included) and every state s it reaches: a thread that stands before a provider
@@ -35,6 +35,25 @@ Theorem C01_emitted_wf : forall nn outs nreq src sidx nprov isarg isasync fallib
              wfl (prog_of nn outs nreq src sidx nprov isarg isasync fallible np reterr st) (Sched2.rk nn outs nreq).
 Proof. intros. eapply emitted_wfl; eauto. Qed.
 Print Assumptions C01_emitted_wf.
+
+(* For ALL declarations: whenever the model of NewGraph accepts a declaration d (any DAG shape, Async marking, multi-value
+   providers, Bind groups, Struct expansion, Value, injector arguments, flattened Sets, declaration order), the model of
+   buildStmts succeeds and every execution of the emitted program - every interleaving, latency, failure and
+   cancellation - is race free, never gets stuck at a provider entry, and every provider reads exactly what its
+   producers returned. (`umodel d`, which the static correspondence compares with the real generator's output, is the
+   projection of this very program: GenSound.umodel_is_uprog.) *)
+Theorem C01_all_declarations : forall d g, unew_graph d = Gen.OK g ->
+  exists st, Threads.build (unp g) (upool g) (udeps g) (uisasync g) (uargs g) = Some st /\
+  forall ls s, Sem2.run (uprog g st) (Sem2.init (uprog g st)) ls = Some s ->
+    ~ race_state (uprog g st) s /\
+    forall t pc it, nth_error (s_thr s) t = Some (TRun pc (PWait (length (it_waits it)))) -> item_at (uprog g st) t pc = Some it ->
+      exists s', Sem2.step (uprog g st) s (LEnter t) = Some s' /\
+        exists vs, s_trace s' = Enter (it_node it) vs :: s_trace s /\ Forall2 (good_read (uprog g st) s) (it_args it) vs.
+Proof.
+  intros d g H. destruct (gen_sound d g H) as (st & B & W). exists st. split; [exact B|].
+  intros ls s R. split; [apply (race_free _ ls s (wfl_wf _ _ W) R) | intros t pc it Ct Ci; apply (enter_after_deps _ ls s (wfl_wf _ _ W) R t pc it Ct Ci)].
+Qed.
+Print Assumptions C01_all_declarations.
 
 (* non-vacuity: a concrete two-thread program is well-synchronised and has a run in which the consumer enters *)
 Definition ex_prog : prog :=
